@@ -59,7 +59,7 @@ def history(seed):
     from frame.die.die import Die
     from frame.allocation.allocation import Allocation, create_initial_allocation
     from frame.geometry.geometry import Rectangle, Point, Shape, create_stog
-    from json import dumps as write_yaml        # input documents are written WITHOUT the library (JSON is a subset of YAML): the harness must not depend on the code under test
+    write_yaml = lambda d: __import__("json").dumps(d, indent=1)  # noqa: E731  input documents are written WITHOUT the library (JSON is a subset of YAML): the harness must not depend on the code under test
     import tools.rect.pseudobool as pb
     from tools.rect.satmanager import SATManager
     rng = random.Random(seed)
@@ -123,7 +123,7 @@ def sibling(name, scale, seed):
     from frame.die.die import Die
     from frame.allocation.allocation import create_initial_allocation
     from frame.geometry.geometry import Rectangle, Point, Shape, create_stog
-    from json import dumps as write_yaml        # input documents are written WITHOUT the library (JSON is a subset of YAML): the harness must not depend on the code under test
+    write_yaml = lambda d: __import__("json").dumps(d, indent=1)  # noqa: E731  input documents are written WITHOUT the library (JSON is a subset of YAML): the harness must not depend on the code under test
     rng = random.Random(seed)
     s = scale
     try:
@@ -141,6 +141,17 @@ def sibling(name, scale, seed):
                 d = Die(f"{20 * s}x{14 * s}", n)
                 d.split_refinable_regions(2.0, rng.choice([2, 4, 6]))
                 create_initial_allocation(d).refine(0.6, 1).griddify()
+            elif name == "allocdoc":
+                # a design in which the rectangle description of one of the document's cells belongs to a fixed module, taken through the
+                # operations that mark cells (added after seed C20-9: rectangles parsed once and shared between designs)
+                n = Netlist(write_yaml({"Modules": {"F": {"fixed": True, "rectangles": [[1 * s, 1 * s, 2 * s, 2 * s]]}, "S": {"area": 2 * s * s, "center": [3 * s, 3 * s]}},
+                                        "Nets": [["F", "S"]]}))
+                d = Die(f"{4 * s}x{4 * s}", n)
+                create_initial_allocation(d).refine(0.9, 1)
+                from frame.allocation.allocation import Allocation
+                # ... and the same cell descriptions as the probe's document, allocated for that design (marks the fixed module's cell)
+                grid = [[[1 * s, 1 * s, 2 * s, 2 * s], {}], [[3 * s, 1 * s, 2 * s, 2 * s], {}], [[1 * s, 3 * s, 2 * s, 2 * s], {}], [[3 * s, 3 * s, 2 * s, 2 * s], {}]]
+                Allocation(write_yaml(grid)).initial_allocation(n)
             elif name == "stog":
                 rs = [Rectangle(center=Point(5 * s, 5 * s), shape=Shape(4 * s, 4 * s)), Rectangle(center=Point(5 * s, 2.5 * s), shape=Shape(2 * s, 1 * s))]
                 if not Rectangle.epsilon_defined():
@@ -164,7 +175,7 @@ def probe(name, scale):
     from frame.die.die import Die
     from frame.allocation.allocation import create_initial_allocation
     from frame.geometry.geometry import Rectangle, Point, Shape, create_stog
-    from json import dumps as write_yaml        # input documents are written WITHOUT the library (JSON is a subset of YAML): the harness must not depend on the code under test
+    write_yaml = lambda d: __import__("json").dumps(d, indent=1)  # noqa: E731  input documents are written WITHOUT the library (JSON is a subset of YAML): the harness must not depend on the code under test
     out = {}
     s = scale
     with contextlib.redirect_stdout(io.StringIO()):
@@ -211,6 +222,15 @@ def probe(name, scale):
             out["cells"] = sorted((r9(x.rect.center.x), r9(x.rect.center.y), r9(x.rect.shape.w), r9(x.rect.shape.h), x.depth,
                                    sorted((k, r9(v)) for k, v in x.alloc.items())) for x in b.allocations)
             out["must"] = [a.must_be_refined(t) for t in (0.1, 0.5, 0.9)]
+        elif name == "allocdoc":
+            from frame.allocation.allocation import Allocation
+            cells = [[[1 * s, 1 * s, 2 * s, 2 * s], {"A": 0.5, "B": 0.25}], [[3 * s, 1 * s, 2 * s, 2 * s], {"A": 0.2}], [[1 * s, 3 * s, 2 * s, 2 * s], {"B": 0.5}],
+                     [[3 * s, 3 * s, 2 * s, 2 * s], {"A": 0.1, "B": 0.1}]]
+            a = Allocation(write_yaml(cells))
+            b = a.refine(0.6, 1).griddify()
+            out["cells"] = sorted((r9(x.rect.center.x), r9(x.rect.center.y), r9(x.rect.shape.w), r9(x.rect.shape.h), x.depth, x.rect.fixed,
+                                   sorted((k, r9(v)) for k, v in x.alloc.items())) for x in b.allocations)
+            out["must"] = [a.must_be_refined(t) for t in (0.1, 0.3, 0.9)]
         elif name in ("stog", "nearmiss_stog"):
             res = []
             for gap in ((0.0, 1e-3) if name == "stog" else (1e-9, 1e-6)):
@@ -258,6 +278,9 @@ def probe(name, scale):
                 for g, e in mod.get_constraints(m.gekko):
                     eqs.append((g, e.name, r9(e.lhs.evaluate()), r9(e.rhs.evaluate()), bool(e.is_equation_met())))
             out["equations"] = eqs
+            # the variables the wrapper registered (added after seed C20-10: a default argument evaluated once made later models forget variables)
+            out["variables"] = sorted(str(v.data.get("name")) for v in m.gekko.variable_list)
+            out["variable_set"] = sorted(m.gekko.variable_set)
             import tools.legalfloor.expression_tree as et
             out["epsilon"] = r9(et.get_epsilon())
         else:
